@@ -10,6 +10,8 @@ import (
 	"go.nanomsg.org/mangos/v3/protocol"
 	"go.nanomsg.org/mangos/v3/protocol/xpair"
 	"go.nanomsg.org/mangos/v3/protocol/xpub"
+	"go.nanomsg.org/mangos/v3/protocol/xsub"
+	_ "go.nanomsg.org/mangos/v3/transport/inproc"
 	_ "go.nanomsg.org/mangos/v3/transport/tcp"
 	"go.nanomsg.org/mangos/v3/vh/kit"
 	"go.nanomsg.org/mangos/v3/vh/vnet"
@@ -36,6 +38,8 @@ func init() {
 				NeedCounters: []string{"attached", "refused-by-protocol", "redialled-after-refusal", "took-over"}},
 			{Name: "tcp-aborted-handshakes-then-peer", Mode: "enum", Reset: kit.ResetGlobals, Body: tcpAborted, NeedCounters: []string{"attached-after-aborted-handshake"}},
 			{Name: "listener-sched-attach-vs-drop", Mode: "sched", Bound: b, Reset: kit.ResetGlobals, Body: schedAttachDrop},
+			{Name: "inproc-dials-waiting-for-several-busy-listeners", Mode: "enum", Reset: kit.ResetGlobals, Body: InprocBusyListeners, NeedCounters: []string{"waiting-dial-connected-when-its-listener-became-free"}},
+			{Name: "inproc-sched-dials-waiting-for-two-busy-listeners", Mode: "sched", Bound: b - 1, Reset: kit.ResetGlobals, Body: func() { inprocBusyListeners(0, 1) }},
 		}
 	})
 }
@@ -544,6 +548,114 @@ func tcpAborted() {
 // Bodies re-run by C11 under the race-instrumented build.
 var RaceBodies = map[string]func(){
 	"c13-attach-vs-drop": schedAttachDrop,
+	"c13-inproc-dials-waiting-for-two-busy-listeners": func() { inprocBusyListeners(0, 1) },
+}
+
+// InprocBusyListeners: two or three sockets listen on different inproc addresses; the accept loop
+// of each is busy (held in the Attaching callback of a first connection), and one further Dial per
+// address is waiting for it.  The waiting Dials were issued in any order, the accept loops become
+// free in any order: each time one does, the Dial waiting for *that* address - and no other -
+// completes and its connection attaches; in the end everybody is connected and publications
+// reach every subscriber.  (inproc keeps one process-wide wait queue for all addresses.)
+func InprocBusyListeners() {
+	n := 2 + kit.ChooseFree(2)
+	np := 2
+	if n == 3 {
+		np = 6
+	}
+	inprocBusyListenersN(n, kit.ChooseFree(np), kit.ChooseFree(np))
+}
+
+func inprocBusyListeners(dialOrder, freeOrder int) { inprocBusyListenersN(2, dialOrder, freeOrder) }
+
+var perms3 = [][]int{{0, 1, 2}, {0, 2, 1}, {1, 0, 2}, {1, 2, 0}, {2, 0, 1}, {2, 1, 0}}
+
+func inprocBusyListenersN(n, dialOrder, freeOrder int) {
+	perm := func(i int) []int {
+		if n == 2 {
+			return [][]int{{0, 1}, {1, 0}}[i]
+		}
+		return perms3[i]
+	}
+	type lst struct {
+		s        mangos.Socket
+		addr     string
+		release  chan struct{}
+		held     bool
+		attached int
+	}
+	var ls []*lst
+	var subs []mangos.Socket
+	for i := 0; i < n; i++ {
+		l := &lst{addr: fmt.Sprintf("inproc://c13-busy-%d", i), release: make(chan struct{})}
+		l.s = core.MakeSocket(xpub.NewProtocol())
+		first := true
+		l.s.SetPipeEventHook(func(ev mangos.PipeEvent, p mangos.Pipe) {
+			switch ev {
+			case mangos.PipeEventAttaching:
+				if first {
+					first = false
+					l.held = true
+					<-l.release // the accept loop is held here: no Accept is outstanding meanwhile
+					l.held = false
+				}
+			case mangos.PipeEventAttached:
+				l.attached++
+			}
+		})
+		if err := l.s.Listen(l.addr); err != nil {
+			kit.Failf("setup", "Listen %s: %s", l.addr, kit.ErrName(err))
+		}
+		ls = append(ls, l)
+	}
+	dial := func(name, addr string) *kit.Call {
+		c := core.MakeSocket(xsub.NewProtocol())
+		subs = append(subs, c)
+		call := kit.Start(name, func() (interface{}, error) { return nil, c.Dial(addr) })
+		kit.Quiesce()
+		return call
+	}
+	for i, l := range ls {
+		c := dial(fmt.Sprintf("Dial-first:%d", i), l.addr)
+		if !c.Done() || c.Err != nil || !l.held {
+			kit.Failf("setup", "first Dial to %s: done=%v %s, accept loop held=%v", l.addr, c.Done(), kit.ErrName(c.Err), l.held)
+		}
+	}
+	waiting := make([]*kit.Call, n)
+	for _, i := range perm(dialOrder) {
+		waiting[i] = dial(fmt.Sprintf("Dial-waiting:%d", i), ls[i].addr)
+		if waiting[i].Done() {
+			kit.Failf("setup", "the second Dial to %s returned (%s) although the accept loop is busy", ls[i].addr, kit.ErrName(waiting[i].Err))
+		}
+	}
+	freed := map[int]bool{}
+	for _, i := range perm(freeOrder) {
+		close(ls[i].release)
+		freed[i] = true
+		kit.Quiesce()
+		for j, w := range waiting {
+			if freed[j] && (!w.Done() || w.Err != nil) {
+				kit.Failf("dial-left-waiting:inproc", "the accept loop of %s is free again but the Dial that was waiting for it has not completed (done=%v %s); dials were issued in order %v, listeners freed so far %v",
+					ls[j].addr, w.Done(), kit.ErrName(w.Err), perm(dialOrder), freed)
+			}
+			if !freed[j] && w.Done() {
+				kit.Failf("dial-returned-early:inproc", "the Dial to %s returned %s while that listener's accept loop is still busy", ls[j].addr, kit.ErrName(w.Err))
+			}
+		}
+		if ls[i].attached != 2 {
+			kit.Failf("listener-stopped-accepting:inproc", "%s has %d attached connections after its accept loop became free, want 2", ls[i].addr, ls[i].attached)
+		}
+		kit.Count("waiting-dial-connected-when-its-listener-became-free")
+	}
+	kit.Observe("n=%d dial=%v free=%v", n, perm(dialOrder), perm(freeOrder))
+	kit.Must("Close", func() {
+		for _, l := range ls {
+			_ = l.s.Close()
+		}
+		for _, c := range subs {
+			_ = c.Close()
+		}
+	})
 }
 
 
